@@ -36,6 +36,30 @@ a textual prefix (`fooey` for `foo`) does not. -/
 theorem sub_strip_iff (p x n : Bytes) : stripName p x = some n ↔ x = mapName p n :=
   stripName_eq_some p x n
 
+/-- A view of a view is the view of the joined prefix: `Sub(Sub(r, a), b)` hands the wrapped
+registry the name `Sub(r, a/b)` would, and shows the same backend names under the same view names. -/
+theorem sub_sub_name (a b n : Bytes) : mapName a (mapName b n) = mapName (a ++ 47 :: b) n := by
+  simp [mapName]
+
+theorem sub_sub_strip (a b x : Bytes) :
+    (stripName a x).bind (stripName b) = stripName (a ++ 47 :: b) x := by
+  cases h : stripName (a ++ 47 :: b) x with
+  | some n =>
+    have hx : x = mapName (a ++ 47 :: b) n := (stripName_eq_some _ x n).1 h
+    rw [hx, ← sub_sub_name, stripName_mapName]
+    simp [stripName_mapName]
+  | none =>
+    cases h1 : stripName a x with
+    | none => rfl
+    | some y =>
+      cases h2 : stripName b y with
+      | none => simp [h2]
+      | some n =>
+        have hy : y = mapName b n := (stripName_eq_some _ y n).1 h2
+        have hx : x = mapName a y := (stripName_eq_some _ x y).1 h1
+        rw [hx, hy, sub_sub_name, stripName_mapName] at h
+        cases h
+
 /-- Prefixing preserves the order of names (Go's `strings.Compare`). -/
 theorem sub_order (p a b : Bytes) : compare (mapName p a) (mapName p b) = compare a b :=
   compare_mapName p a b
